@@ -1,8 +1,9 @@
-"""C10 (engine E1, twin equivalence)."""
+"""C10 - optimisation never changes what the circuit does (E1 twin equivalence + CrossHair on CSEOptimizer._make_key)."""
 import sys
 sys.path.insert(0, "/verif")
 from vf.main import run_prop
 from vf.report import main_wrapper
+from vf.crosshair_run import part
 
 if __name__ == "__main__":
-    main_wrapper(lambda: run_prop("C10"))
+    main_wrapper(lambda: run_prop("C10", extra_parts=[part(["c10_cse_key_injective_decider", "c10_cse_key_injective_arith"], [])]))
